@@ -482,7 +482,7 @@ def run(tier, seed):
                   assumptions=["process aborts / SIGKILL model crashes (page cache survives); power loss with unsynced data is out of reach of this harness",
                                "`this version and data hash` is what a clean build of the current tree writes into meta.json",
                                "the state `foreign index + meta claiming the CURRENT hash` is not generated: no run can produce it and the tool cannot detect it"],
-                  extra={"syscall_kill_sweep": {s: c for s, c in sweep_counts.items()}, "crash_points": CRASHPOINTS, "crash_points_fired": fired, "prior_states": list(states(ctx)) if False else None, "probe_phrases": len(ctx["probes"])},
+                  extra={"syscall_kill_sweep": {s: c for s, c in sweep_counts.items()}, "crash_points": CRASHPOINTS, "crash_points_fired": fired, "prior_states": snames, "probe_phrases": len(ctx["probes"])},
                   min_eval=50)
 
 def replay(path):
